@@ -79,6 +79,9 @@ var scopeTable = []scopeEntry{
 	sc("HELP-1", `:parents`, "C14", "C17"),
 	// matcher loops and bounds
 	sc("MAT-12", `:bounds@`, "C03"),
+	// options-ended flag and the `--` token
+	sc("MAT-3", `:stops-at-dashdash`, "C01", "C02", "C09", "C15"),
+	sc("MAT-3", `Match$|try$`, "C01", "C09"),
 	// what is recorded
 	sc("MAT-2", `\(Opts\)`, "C02", "C10", "C13", "C15", "C19"),
 	sc("MAT-2", `(\(Args\)|:verbatim)`, "C02", "C09", "C13", "C15", "C19"),
@@ -90,7 +93,7 @@ var scopeTable = []scopeEntry{
 	sc("PAR-6", `:(no-other-shortcuts|optional|repetition|alternation\[|concatenation\[)`, "C01"),
 	// capabilities
 	sc("VAL-5", `(IsDefault|DefaultValue)$`, "C17"),
-	sc("VAL-5", `IsBool$`, "C02", "C10", "C19"),
+	sc("VAL-5", `IsBool$`, "C01", "C02", "C10", "C19"),
 }
 
 // applyScopes narrows the obligations of one rule run.
